@@ -261,7 +261,9 @@ def cubic_spline(
 
     if inverse:
         outputs = outputs * (right - left) + left
+        logabsdet = logabsdet - math.log((top - bottom) / (right - left))
     else:
         outputs = outputs * (top - bottom) + bottom
+        logabsdet = logabsdet + math.log((top - bottom) / (right - left))
 
     return outputs, logabsdet
